@@ -61,6 +61,7 @@ Definition dec_target (v : val) : option target :=
   match v with
   | VL [VZ 0; k] => option_map TLoc (get_n k) | VL [VZ 1; k] => option_map TPar (get_n k)
   | VL [VZ 2; k] => option_map TGlob (get_n k) | VL [VZ 3; k] => option_map TProp (get_n k)
+  | VL [VZ 4; k] => option_map TByName (get_n k)
   | _ => None
   end.
 Definition dec_s (fuel : nat) (v : val) : option stmt :=
